@@ -74,6 +74,8 @@ def token_classes(tag, text, last):
             out.add("untagged_pipe")
         if text in ("<", "<<<"):
             out.add("untagged_lt")
+        if len(text) > 1 and text[0] == "<" and text[1] != "<":
+            out.add("untagged_lt_file")     # /repo 543507e: from_tokens splits an untagged word <file into < file
         if text == "&" and last:
             out.add("untagged_amp_last")
     return out
@@ -215,7 +217,8 @@ def subst_cases(ctx, work):
 
 
 POPS = [["a>b"], ["x|y"], ["|"], ["&"], ["<"], ["<<<"], ["z z"], ["2>&1"], [">o"], ["#c"], [";x"], ["a", "&"], ["&", "!"],
-        ["plain", "a>b", "x|y", "&", "z z", "#c", ";x", "|", "<", "~", "zzz"], ["p q>r"], ["1>f", "2"], ["a>", "b"]]
+        ["plain", "a>b", "x|y", "&", "z z", "#c", ";x", "|", "<", "~", "zzz"], ["p q>r"], ["1>f", "2"], ["a>", "b"],
+        ["<f", "f"], ["<<x"]]
 
 
 def glob_cases(ctx, work):
